@@ -4,6 +4,8 @@ mod c01;
 mod c02;
 mod c03;
 mod c04;
+mod c05;
+mod c19;
 mod pushvm;
 mod realrun;
 
@@ -17,6 +19,8 @@ fn main() {
         "C03" => c03::run(&args),
         "C03-child" => c03::child(&args),
         "C04" => c04::run(&args),
+        "C05" => c05::run(&args),
+        "C19" => c19::run(&args),
         other => {
             eprintln!("vh-push: unknown property {other}");
             2
